@@ -21,7 +21,7 @@ FAMS_WIRE = [('CTD', 'CTD', 'CTD'), ('UCTD', 'UCTD', 'UCTD'), ('NOV', 'NOV', 'MI
              ('ENG', 'MIT', 'MIT'), ('REH', 'NOV', 'KC-BARE'), ('CTD', 'NOV', 'MIT')]
 FAMS_BARE = [('CTD', 'CTD', 'CTD'), ('UCTD', 'UCTD', 'UCTD')]
 RE = {'vlow': 40.0, 'lam': 300.0, 'trans': 3000.0, 'turb': 50000.0}
-POWERS = ['zero', 'pins', 'duct', 'cool', 'all', 'asym']
+POWERS = ['zero', 'pins', 'duct', 'cool', 'all', 'asym', 'plenum']
 DESIGNS = {
     'd2': dict(rings=2, pd=1.20, clearance='tight', wire=True),
     'd3': dict(rings=3, pd=1.08, clearance='mid', wire=True),
@@ -54,6 +54,9 @@ def power_spec(kind, rings, nduct, L, seed):
         base.update(pins='uniform', duct='uniform', cool='uniform')
     elif kind == 'asym':
         base.update(pins='asym', duct='asym', cool='asym')
+    elif kind == 'plenum':
+        # upper half of the bundle: no heat generated in the pins (gas plenum), the coolant and the duct still heated
+        base.update(pins='asym', duct='asym', cool='asym', amp_pins=[1.0, 0.0], fr={'cool': 0.3})
     return base
 
 
@@ -163,7 +166,7 @@ def cases_sweep(tier):
         # from the default scenario)
         base = dict(design='d3', ducts='1', fam=list(FAMS_WIRE[0]), re='trans', power='asym',
                     wall='flow', structure='bundle')
-        for k, vals in (('power', ['pins', 'duct', 'cool']), ('wall', ['no_flow', 'duct_average']),
+        for k, vals in (('power', ['pins', 'duct', 'cool', 'plenum']), ('wall', ['no_flow', 'duct_average']),
                         ('fam', [list(f) for f in FAMS_WIRE]), ('ducts', ['3', '3s', '3r']),
                         ('design', ['d4', 'd5']), ('sf', ['CT', 1.3]),
                         ('structure', ['multi', 'lf-simple', 'lf-6node'])):
